@@ -3,6 +3,7 @@
 Decides the single-outstanding-request protocol of a pooled connection (claim/release typestate): atomic claim, who may start a
 request on a connection, settle-once and release order in the three completion routines, clean hand-back, persistent timer
 registration.  Does not decide response<->request matching over server behaviours."""
+import re
 from .. import cfg, lib, facts
 from ..facts import AnalysisBroken, strip_tmpl
 
@@ -412,3 +413,41 @@ def run(ck):
     ok = all((e.get("callee") or "") == "Pistache::Aio::Reactor::registerFd" for e in regs) if once else True
     ck.ob("C15-R5", "TimerPool::Entry::registerReactor/persistent", ok, regs[0].loc, rr,
           "registered once under `registered`, with %s" % ", ".join(sorted({(e.get("callee") or "").rsplit("::", 1)[1] for e in regs})))
+
+    # ---------------- R10: units of the armed time-out; "not connected" only together with close ----------------
+    ck.rule("C15-R10", "H unit agreement + D who-may-write",
+            "a std::chrono value converted for a timespec member is converted to that member's unit (tv_sec <- seconds, tv_nsec <- "
+            "nanoseconds, tv_usec <- microseconds): a request time-out with a sub-second part would otherwise fire at once; and the "
+            "connection's state is set back to NotConnected only where its socket is closed (or was never opened), so a connection "
+            "that is told to reconnect does not leave its old socket open beside the new one", 2)
+    UNIT = {"tv_sec": "seconds", "tv_nsec": "nanoseconds", "tv_usec": "microseconds"}
+    nun = 0
+    for fn_ in prog.library_funcs():
+        if fn_.file.startswith(facts.VERIF):
+            continue
+        for e in fn_.events("assign"):
+            fld_ = ((e.get("lhs") or {}).get("f") or "").rsplit("::", 1)[-1]
+            if fld_ not in UNIT:
+                continue
+            rhs = (e.get("rhs") or {}).get("t") or ""
+            m_ = re.findall(r"duration_cast<\s*(?:std::chrono::)?(\w+)\s*>", rhs)
+            if not m_:
+                continue
+            nun += 1
+            ok_ = all(u_ == UNIT[fld_] for u_ in m_)
+            ck.ob("C15-R10", "%s/%s-unit" % (fn_.base.replace("Pistache::", ""), fld_), ok_, e.loc, fn_,
+                  "%s <- %s" % (fld_, ", ".join(m_)) if ok_ else "%s is given a count of %s: the timer fires after the wrong time" % (fld_, ", ".join(m_)))
+    ck.require(nun >= 2, "chrono -> timespec conversions found: %d" % nun)
+    for fn_ in prog.library_funcs():
+        if not fn_.file.endswith("/client/client.cc"):
+            continue
+        for e in fn_.events("call"):
+            if e.base_callee() in ("std::atomic::store", "std::__atomic_base::store") and strip_tmpl((e.get("recv") or {}).get("f") or "") == CONN + "connectionState_" and \
+                    any("NotConnected" in (a_.get("t") or "") or str(a_.get("const") or "").endswith("NotConnected") for a_ in e.get("args", [])):
+                own = prog.owner(fn_)
+                closes = [c_ for c_ in own.events("call") if (c_.get("callee") or "") == "close" and not (c_.get("cfile") or "").startswith(facts.REPO)]
+                ok_ = bool(closes) or own.d.get("ctor") or own.base == CONN + "close"
+                ck.ob("C15-R10", "connectionState_=NotConnected in %s" % own.base.replace(E, ""), ok_, e.loc, fn_,
+                      "together with close(fd)" if ok_ else
+                      "%s marks the connection NotConnected without closing its socket: the next request connects again and the old socket stays open "
+                      "(more connections per host than the configured maximum)" % own.base.replace(E, ""))
